@@ -285,6 +285,30 @@ def handlers(F, rep, bodies):
         rem = [t for bi, t in f.calls() if (callee_generic(t) or "").endswith("::remove") and t["args"] and
                op_place(t["args"][0]) is not None and op_place(t["args"][0])["l"] in hs]
         ok = bool(rem)
+        # CLOSEFIRST: the removal is the first thing did_close does — before it, the handler may only suspend on the
+        # documents lock itself. If another future (publish_diagnostics) is awaited first, a didOpen for the same URI
+        # can run during that suspension and the resumed close then deletes the re-opened document.
+        rem_blocks = [bi for bi, t in f.calls() if (callee_generic(t) or "").endswith("::remove") and t["args"] and
+                      op_place(t["args"][0]) is not None and op_place(t["args"][0])["l"] in hs]
+        early = []
+        for bi, t in f.calls():
+            g = callee_generic(t) or ""
+            if not g.endswith("Future::poll"):
+                continue
+            who = t["f"].get("self", "") + " " + t["f"].get("inst", "")
+            if "RwLock" in who or "rwlock" in who.lower():
+                continue
+            if any(rb in f.reachable(bi) for rb in rem_blocks):
+                early.append((t.get("ln"), who.strip()[:80]))
+        ok_first = bool(rem_blocks) and not early
+        rep.oblige("HANDLERS", "did_close:remove-before-any-other-await", ok_first,
+                   sample={"rule": "HANDLERS", "handler": "did_close", "futures_polled_before_remove": early[:3]})
+        if rem_blocks and early:
+            rep.add(Finding("HANDLERS", "HANDLERS|did_close|remove-after-await",
+                            "did_close awaits another future (%s) before it removes the document: while it is "
+                            "suspended there a didOpen for the same URI can store the re-opened text, and the resumed "
+                            "close deletes it — the server then has no state for a document the editor has open"
+                            % early[0][1], file=f.file, line=early[0][0], fn=f.path))
         rep.oblige("HANDLERS", "did_close:remove-under-write-guard", ok)
         if not ok:
             rep.add(Finding("HANDLERS", "HANDLERS|did_close|remove",
